@@ -35,8 +35,19 @@ let cfg_exotic cfg =
     && format_exotic (string_of_bytes (bytes_of_hex (String.sub it 1 (String.length it - 1)))))
     (String.split_on_char ',' cfg)
 
+(* M <variant> <nthreads> <iters> <pevery> <flags> <tree> [<cfg>]: concurrent threads under their own locales.
+   Prediction: no mismatching text (C14_ser_concurrent_indep: the text is ser_spec of the job alone — for formats
+   inside its hypothesis), and, when every regenerated exit restores and releases (exits_all_ok), no thread's
+   locale handle changed and no locale object leaked by the parses.  The counts are not modelled. *)
+let run_m args =
+  let cfg = (match args with [_; _; _; _; _; _; cfg] -> cfg | _ -> "-") in
+  let ser = if cfg_exotic cfg then "? ?" else "mism=0 pmism=0" in
+  let par = if ok then "perr=0 lbad=0 L0" else "? ? ?" in
+  Printf.sprintf "M %s %s ? ? %s" ser par (if cfg_exotic cfg || not ok then "?" else "first=-")
+
 let run line =
   match split_on ' ' line with
+  | "M" :: args -> run_m args
   | op :: args when op = "P" || op = "S" || op = "G" || op = "F" ->
     let ndata = (match op with "P" -> 4 | _ -> 1) in
     let data = String.concat " " (List.init ndata (fun _ -> "?")) in
